@@ -14,15 +14,15 @@ def not_applicable():
     out = dict(P.NOT_APPLICABLE)
     for l in open("/verif/properties.jsonl"):
         pid = json.loads(l)["id"]
-        if pid not in P.PROPS and pid not in out:
+        if pid not in P.claimed() and pid not in out:
             out[pid] = "check not built yet in this session (work in progress; planned design in DESIGN.md section 6)"
     return [{"property_id": k, "reason": v} for k, v in sorted(out.items())]
 
 
 def build():
     checks = []
-    for pid in sorted(P.PROPS):
-        c = P.PROPS[pid]
+    for pid in sorted(P.claimed()):
+        c = P.claimed()[pid]
         checks.append({
             "property_id": pid,
             "quick_cmd": "python3 /verif/run.py %s --tier quick" % pid,
@@ -45,7 +45,7 @@ def build():
             "add_only": True,
         },
         "engines": [
-            {"name": "contracts", "path": "/verif/run.py", "serves_properties": sorted(P.PROPS),
+            {"name": "contracts", "path": "/verif/run.py", "serves_properties": sorted(P.claimed()),
              "kind_free_text": "contract-based deductive verification of the real code: Verus on mechanically extracted functions (unbounded), "
                                "Kani function/harness proofs in place on a byte-identical copy (complete for loop-free codecs, bounded where labelled), "
                                "native replay of counterexamples"},
